@@ -31,6 +31,7 @@ type Contract struct {
 	Modifies []string // raw targets; nil = not specified (=> everything)
 	HasMod   bool
 	Invs     map[int][]*Clause
+	Steps    map[int][]*Clause // transition invariants: relate the state at a back edge to the state at the loop head (prev)
 	Decr     map[int]*Clause
 	FnDecr   *Clause
 	Pure     bool
@@ -76,7 +77,7 @@ type SpecSet struct {
 
 var clauseKw = map[string]bool{"func": true, "method": true, "closure": true, "requires": true, "ensures": true, "modifies": true,
 	"loop": true, "pure": true, "props": true, "pred": true, "external": true, "iface": true, "functype": true, "ghost": true,
-	"trusted": true, "panics": true, "table": true, "fieldinv": true, "typeinv": true, "decreases": true, "assert": true, "fn": true, "nopanic": true}
+	"trusted": true, "panics": true, "table": true, "fieldinv": true, "typeinv": true, "globalinv": true, "decreases": true, "assert": true, "fn": true, "nopanic": true}
 
 var reParamList = regexp.MustCompile(`^([^\s(]+|\([^)]*\)\.[^\s(]+)\s*(?:\(([^)]*)\))?\s*(?:\(([^)]*)\))?\s*$`)
 
@@ -194,7 +195,7 @@ func (ss *SpecSet) parseFile(pkg, path, data string) {
 			} else if rc.kw == "functype" {
 				key = "functype:" + pkg + "." + m[1]
 			}
-			cur = &Contract{Key: key, Pkg: pkg, Kind: rc.kw, Invs: map[int][]*Clause{}, Decr: map[int]*Clause{}, File: path, Line: rc.line}
+			cur = &Contract{Key: key, Pkg: pkg, Kind: rc.kw, Invs: map[int][]*Clause{}, Steps: map[int][]*Clause{}, Decr: map[int]*Clause{}, File: path, Line: rc.line}
 			cur.Params = splitNames(m[2])
 			cur.Results = splitNames(m[3])
 			if _, dup := ss.Contracts[key]; dup {
@@ -252,6 +253,13 @@ func (ss *SpecSet) parseFile(pkg, path, data string) {
 				continue
 			}
 			ss.TypeInvs[pkg+"."+f[0]] = &Clause{Kind: "typeinv", Src: src, Expr: e, File: path, Line: rc.line}
+		case "globalinv":
+			f := strings.Fields(rc.text)
+			if len(f) != 2 || f[1] != "nonnil" {
+				ss.errf(path, rc.line, "globalinv <var> nonnil")
+				continue
+			}
+			ss.FieldInvs["global:"+pkg+"."+f[0]] = f[1]
 		case "fieldinv":
 			f := strings.Fields(rc.text)
 			if len(f) != 2 || f[1] != "nonnil" {
@@ -333,6 +341,11 @@ func (ss *SpecSet) parseFile(pkg, path, data string) {
 					if c := mk("decreases"); c != nil {
 						c.Loop = k
 						cur.Decr[k] = c
+					}
+				case "step":
+					if c := mk("step"); c != nil {
+						c.Loop = k
+						cur.Steps[k] = append(cur.Steps[k], c)
 					}
 				default:
 					ss.errf(path, rc.line, "unknown loop clause %q", f[1])
